@@ -41,6 +41,13 @@ def make(cls, max_iter, seed, variant):
     if cls == "GradientMethod":
         x = np.zeros(n, dtype=dt)
         lam = [0.0, 0.05, 1e3][variant % 3]  # 1e3: zero is the true minimiser -> genuine early stop
+        if variant % 4 == 1:
+            # warm start exactly at the minimiser of the smooth part: grad f(x0) = 0 but the prox still moves x
+            A = np.diag(np.arange(1, n + 1)).astype(dt)
+            y = (A @ np.arange(1, n + 1)).astype(dt)
+            x = np.arange(1, n + 1).astype(dt)
+            L = float(n) ** 2
+            lam = 0.5
         pg = None if lam == 0 else prox.L1Reg([n], lam)
         a = alg.GradientMethod(lambda v: A.conj().T @ (A @ v - y), x, 1 / L, proxg=pg, accelerate=(variant // 3) % 2 == 1, max_iter=max_iter, tol=0)
         return a, lambda: [a.x], False
